@@ -13,15 +13,15 @@ CASES = {'quick': 2400, 'thorough': 40000}
 MAX_SHARDS = 16
 GATES = {
     'quick': {'evaluations': 2000, 'mode:noedit': 150, 'mode:edit': 150, 'mode:raise': 150, 'mode:remove': 100, 'mode:add': 100,
-              'mode:single-edit': 100, 'added:empty-built': 10, 'added:empty-parsed': 10, 'added:parsed-crlf': 10, 'edit_kind:clear': 50, 'edit_kind:append': 50, 'mode:single-noedit': 50, 'mode:single-raise': 50, 'mode:unmatched-include': 50,
+              'mode:single-edit': 100, 'mode:rekey': 80, 'entries_rekeyed': 100, 'graphs_with_absolute_include': 100, 'graphs_with_glob_characters_in_directory_names': 200, 'added:empty-built': 10, 'added:empty-parsed': 10, 'added:parsed-crlf': 10, 'edit_kind:clear': 50, 'edit_kind:append': 50, 'mode:single-noedit': 50, 'mode:single-raise': 50, 'mode:unmatched-include': 50,
               'spelling:abs': 200, 'spelling:dot': 200, 'spelling:bare': 200, 'spelling:updown': 200, 'files_crlf_edited': 150,
               'graphs_with_cycle_or_diamond': 200, 'graphs_with_glob': 200, 'audit_events': 5000},
     'thorough': {'evaluations': 35000, 'files_crlf_edited': 4000},
 }
 RULE = ('case = one temporary tree (outside /repo and /verif, removed afterwards) of 1..7 (thorough ..12) files in nested directories whose '
-        'include directives form a random graph (plain, *.bean, **/*.bean, ../ patterns; cycles, diamonds, self-includes), each file with LF, '
+        'include directives form a random graph (plain, absolute, *.bean, **/*.bean, ../ patterns; directory names with [ and *; cycles, diamonds, self-includes), each file with LF, '
         'CRLF or mixed line ends; the entry path spelled absolute, ./x, sub/../x or bare (cwd in the directory); the with-block edits a '
-        'random subset (an account renamed, a comment appended, or all directives removed), removes entries, adds 1..3 entries (existing or '
+        'random subset (an account renamed, a comment appended, or all directives removed), removes entries, moves entries to another spelling of their own path, adds 1..3 entries (existing or '
         'new directory; built or parsed models, also ones that print as the empty string, CRLF text), raises, or does nothing; both edit_file and '
         'edit_file_recursive. One evaluation = one with-block judged from the snapshot {path: bytes, mtime_ns} before/after and the '
         'sys.addaudithook log of the block (open/remove/mkdir/rename/truncate inside the tree): an untouched file keeps bytes and mtime and is '
@@ -80,7 +80,7 @@ def closure(root, entry_rel):
         f = P.parse(text, models.File)
         for d in f.raw_directives:
             if isinstance(d, models.Include):
-                ms = glob.glob(os.path.join(root, os.path.dirname(cur), d.filename), recursive=True)
+                ms = glob.glob(os.path.join(glob.escape(os.path.join(root, os.path.dirname(cur))), d.filename), recursive=True)
                 if not ms:
                     raise LookupError(d.filename)
                 for m in ms:
@@ -106,7 +106,7 @@ def expected_bytes(original: bytes, tag):
 
 
 def build_tree(r, root, tier):
-    dirs = ['', 'a', 'a/b', 'c']
+    dirs = ['', 'a', 'a/b', 'c', 'd[1]', 'a/e*']        # (glob characters in a directory name are ordinary characters there)
     names = ['index.bean']
     for i in range(1, r.randint(1, 7 if tier == 'quick' else 12)):
         d = r.choice(dirs)
@@ -124,6 +124,11 @@ def build_tree(r, root, tier):
             elif k < 0.5:
                 tgt = r.choice(names)
                 rel = os.path.relpath(tgt, os.path.dirname(n) or '.')
+                if r.random() < 0.15:
+                    rel = os.path.join(root, tgt)          # the include names the file absolutely, whatever the entry path looks like
+                    feats.add('absinclude')
+                if any(c in tgt for c in '[*'):
+                    rel = glob.escape(rel)                  # the include itself is a pattern: its own special characters are escaped
                 body.append(f'include "{rel}"')
                 if '..' in rel:
                     feats.add('updir')
@@ -172,10 +177,10 @@ def run_case(col, r, idx):
         elif unmatched:
             mode = 'unmatched-include'
         else:
-            mode = r.choice(['noedit', 'edit', 'edit', 'raise', 'remove', 'add'])
+            mode = r.choice(['noedit', 'edit', 'edit', 'raise', 'remove', 'add', 'rekey'])
         ed = editor_lib.Editor(common.parser())
         before, dirs_before = snapshot(root)
-        edited, removed, added = set(), set(), {}
+        edited, removed, added, rekeyed = set(), set(), {}, set()
         tag = str(idx % 7)
         visited = None
         exc = None
@@ -193,6 +198,22 @@ def run_case(col, r, idx):
                 with ed.edit_file_recursive(entry) as files:
                     keys = {os.path.normpath(os.path.relpath(os.path.abspath(k), root)): k for k in files}
                     visited = sorted(keys)
+                    if mode == 'rekey':
+                        # entries moved to another spelling of the same path (absolute, ./x, dir/../x): the file is neither new nor
+                        # removed, it has to be there at the end with its model
+                        for rel in r.sample(sorted(keys), r.randint(1, len(keys))):
+                            old = keys[rel]
+                            new = r.choice([os.path.abspath(old), os.path.join('.', os.path.relpath(os.path.abspath(old))),
+                                            os.path.join(os.path.dirname(old) or '.', '..', os.path.basename(os.path.dirname(os.path.abspath(old))), os.path.basename(old))])
+                            if new == old or new in files:
+                                continue
+                            files[new] = files.pop(old)
+                            keys[rel] = new
+                            rekeyed.add(rel)
+                            col.count('entries_rekeyed')
+                            if r.random() < 0.5:
+                                the_edit(files[new], tag)
+                                edited.add(rel)
                     if mode in ('edit', 'raise', 'remove', 'add'):
                         for rel in r.sample(sorted(keys), r.randint(1, len(keys))):
                             the_edit(files[keys[rel]], tag)
@@ -237,6 +258,10 @@ def run_case(col, r, idx):
         col.count('audit_events', len(evs))
         if feats & {'glob'}:
             col.count('graphs_with_glob')
+        if 'absinclude' in feats:
+            col.count('graphs_with_absolute_include')
+        if any('[' in n or '*' in n for n in names):
+            col.count('graphs_with_glob_characters_in_directory_names')
         if expect_visit and (len(expect_visit) < len(names) or 'self' in feats or len(expect_visit) >= 3):
             col.count('graphs_with_cycle_or_diamond')
         if len(names) >= 2 or edited or removed or added:
@@ -286,6 +311,12 @@ def run_case(col, r, idx):
                     return bad(f'edited-file-bytes:{kind}', f'{rel} does not hold the printed model ({kind} differ)')
                 if b'\r\n' in b:
                     col.count('files_crlf_edited')
+            elif rel in rekeyed:
+                # for the mapping this is an entry removed and an entry created: the file may be written again, with the same bytes
+                if rel not in after:
+                    return bad('rekeyed-file-missing', f'{rel} was moved to another spelling of its own path and is gone')
+                if after[rel][0] != b:
+                    return bad('rekeyed-file-bytes', f'{rel} was moved to another spelling of its own path, unedited, and its bytes changed')
             else:
                 if rel not in after or after[rel] != (b, mt):
                     return bad('untouched-file-changed', f'{rel} was not edited but its bytes or mtime changed')
